@@ -150,10 +150,10 @@ class Plane(GeoBody):
         return hash(
             (
                 "Plane",
-                round(n[0], SIG_FIGURES),
-                round(n[1], SIG_FIGURES),
-                round(n[2], SIG_FIGURES),
-                round(n * self.p.pv(), SIG_FIGURES),
+                round(n[0], get_sig_figures()),
+                round(n[1], get_sig_figures()),
+                round(n[2], get_sig_figures()),
+                round(n * self.p.pv(), get_sig_figures()),
             )
         )
 
